@@ -306,7 +306,8 @@ Definition flush (e : env) (st : state) : state * Z * list Z :=
       match flush_db e st0 rsw with
       | DbFail c =>
           (* transaction.rollback(_capture_exception=True) *)
-          let (st2, _) := restore_snapshot (set_tx (Some true) st1) in (st2, c, rows e)
+          (* an exception raised by _restore_snapshot itself replaces the original one *)
+          let (st2, c2) := restore_snapshot (set_tx (Some true) st1) in (st2, if Z.eqb c2 0 then c else c2, rows e)
       | DbOk rws => (finalize st0 st1, 0, rws)
       end.
 
